@@ -194,6 +194,8 @@ structure PassFacts (G : Graph) (s : Nat) (ops : List Nat) (refs : List (Nat × 
     t ∈ S ∨ (canPack Rules.current G t c = some true ∧ ∃ pr, (G.tensor t).ops = [pr] ∧ pr ∈ ops)
   excl : ∀ t ∈ S, ∀ pr ∈ (G.tensor t).ops, pr ∉ ops
   used : ∀ t ∈ S, ∃ c ∈ ops, some t ∈ (G.op c).inputs
+  /-- the start operator feeds no operator of its own pass (no cycles) -/
+  noSelf : ∀ c ∈ ops, s ∉ producersOf G c
 
 theorem accOk_last (R : Rules) (s : Nat) : ∀ (l : List Acc), l ≠ [] → AccOk R G [s] l → (l.map (·.op)).getLast? = some s
   | [], h, _ => absurd rfl h
@@ -369,6 +371,11 @@ theorem buildPass_facts (hW : WFU G rk) {s : Nat} {p : Pass} (h : buildPass Rule
     rcases invB.why herr t ht with ⟨c, hc, hinc, _⟩ | ⟨_, c, _, hc, hinc, _, _⟩
     · exact ⟨c, hc, hinc⟩
     · exact ⟨c, hc, hinc⟩
+  · intro c hc hs
+    obtain ⟨b, hb, hbc⟩ := List.mem_map.mp hc
+    have h1 := hrank b hb
+    have h2 := hW.rank c s hs
+    rw [hbc] at h1; omega
 
 end
 end VelaVerif.Lemmas.PassPackingDfs
